@@ -550,13 +550,13 @@ class Inliner:
     if not (isinstance(st, ast.For) and isinstance(st.iter, ast.Call) and
             not st.orelse):
       return None
-    def escapes(stmts, in_loop=False):
+    def escapes(stmts, kinds, in_loop=False):
       # break / continue that would leave BODY (they mean "stop / next item")
       for s_ in stmts:
-        if isinstance(s_, (ast.Break, ast.Continue)) and not in_loop:
+        if isinstance(s_, kinds) and not in_loop:
           return True
         if isinstance(s_, (ast.For, ast.While, ast.AsyncFor)):
-          if escapes(s_.orelse, in_loop):
+          if escapes(s_.orelse, kinds, in_loop):
             return True
           continue
         if isinstance(s_, (ast.FunctionDef, ast.AsyncFunctionDef, ast.ClassDef)):
@@ -564,15 +564,19 @@ class Inliner:
         for fld in ('body', 'orelse', 'finalbody'):
           v = getattr(s_, fld, None)
           if isinstance(v, list) and v and isinstance(
-              v[0], ast.stmt) and escapes(v, in_loop):
+              v[0], ast.stmt) and escapes(v, kinds, in_loop):
             return True
         for hd in getattr(s_, 'handlers', []) or []:
-          if escapes(hd.body, in_loop):
+          if escapes(hd.body, kinds, in_loop):
             return True
       return False
 
-    if escapes(st.body):
+    if escapes(st.body, (ast.Break,)):
       return None
+    # `continue` in BODY asks for the next item: the generator resumes after
+    # its yield.  Where that yield ends an iteration of the generator's own
+    # innermost loop, that is a `continue` of that loop.
+    body_continues = escapes(st.body, (ast.Continue,))
     h = self._callee(st.iter, f, generator=True)
     if h is None:
       return None
@@ -582,6 +586,28 @@ class Inliner:
     if not yf or any(isinstance(x, ast.Return) for b in body
                      for x in ast.walk(b)):
       return None
+    if body_continues:
+      def yields_end_iterations(stmts, tail, in_loop):
+        for i, s_ in enumerate(stmts):
+          last = tail and i == len(stmts) - 1
+          if isinstance(s_, ast.Expr) and isinstance(s_.value, ast.Yield):
+            if not (last and in_loop):
+              return False
+          elif isinstance(s_, ast.If):
+            if not (yields_end_iterations(s_.body, last, in_loop) and
+                    yields_end_iterations(s_.orelse, last, in_loop)):
+              return False
+          elif isinstance(s_, (ast.For, ast.While)):
+            if not yields_end_iterations(s_.body, True, True):
+              return False
+            if not yields_end_iterations(s_.orelse, last, in_loop):
+              return False
+          elif any(isinstance(x, ast.Yield) for x in ast.walk(s_)):
+            return False
+        return True
+
+      if not yields_end_iterations(body, True, False):
+        return None
     b = _bind(h, st.iter)
     if b is None:
       return None
@@ -604,8 +630,19 @@ class Inliner:
         elif isinstance(s_, ast.Expr) and isinstance(
             s_.value, ast.Yield) and s_.value.value is not None:
           # `yield E`  ->  T = E; BODY
-          out.append(ast.Assign(targets=[copy.deepcopy(st.target)],
-                                value=s_.value.value))
+          tg, val = st.target, s_.value.value
+          tnames = {x.id for x in ast.walk(tg) if isinstance(x, ast.Name)}
+          if isinstance(tg, ast.Tuple) and isinstance(val, ast.Tuple) and len(
+              tg.elts) == len(val.elts) and all(
+                  isinstance(x, ast.Name) for x in tg.elts) and not any(
+                      isinstance(x, ast.Starred) for x in val.elts) and not any(
+                          isinstance(x, ast.Name) and x.id in tnames
+                          for x in ast.walk(val)):
+            # `a, b = x, y` with nothing shared: one assignment per name
+            for t_, v_ in zip(tg.elts, val.elts):
+              out.append(ast.Assign(targets=[copy.deepcopy(t_)], value=v_))
+          else:
+            out.append(ast.Assign(targets=[copy.deepcopy(tg)], value=val))
           out.extend(copy.deepcopy(st.body))
         elif isinstance(s_, (ast.If, ast.For, ast.While)):
           s_.body = conv(s_.body) or [ast.Pass()]
@@ -731,9 +768,21 @@ class Inliner:
         return isinstance(x, ast.Name) and x.id in f.module.imports and (
             x.id not in own)
 
+      # `obj.method(... h(args) ...)`: looking the method up on a plain name
+      # before or after h runs finds the same method
+      method_lookups = set()
+      for x in ast.walk(root):
+        if isinstance(x, ast.Call) and isinstance(
+            x.func, ast.Attribute) and isinstance(
+                x.func.value, ast.Name) and any(
+                    z is c for a_ in list(x.args) + [k.value for k in x.keywords]
+                    for z in ast.walk(a_)):
+          method_lookups.add(id(x.func))
+
       first = not any(
           isinstance(x, (ast.Call, ast.Attribute, ast.Subscript, ast.Await)) and
-          not (isinstance(x, ast.Attribute) and _module_attr(x)) and
+          not (isinstance(x, ast.Attribute) and (
+              _module_attr(x) or id(x) in method_lookups)) and
           (getattr(x, 'lineno', 0), getattr(x, 'col_offset', 0)) < (
               c.lineno, c.col_offset) and not any(z is c for z in ast.walk(x))
           for x in ast.walk(root))
